@@ -18,7 +18,7 @@ VARIABLES l,       \* next line to explain
 
 tvars == <<vars, l, moSeen>>
 
-CfgOf(e) == [kind |-> e.kind, n |-> e.n, fr |-> e.fr, own |-> e.own, prog |-> e.prog, after |-> e.after, nb |-> e.nb]
+CfgOf(e) == [kind |-> e.kind, n |-> e.n, fr |-> e.fr, own |-> e.own, prog |-> e.prog, after |-> e.after, nb |-> e.nb, smod |-> 0]
 
 TInit ==
   /\ l = 2
@@ -39,7 +39,7 @@ Matches(m, e) ==
        [] e.k = "faa" -> m.loc = e.loc /\ m.i = e.i /\ m.v = e.v /\ m.a = e.a
        [] e.k = "cas" -> /\ m.loc = e.loc /\ m.i = e.i /\ m.ok = e.ok
                          /\ m.v = e.v /\ m.vh = e.vh /\ m.a = e.a /\ m.ah = e.ah /\ m.b = e.b /\ m.bh = e.bh
-       [] e.k = "call" -> m.op = e.op /\ m.n = e.n /\ m.id = e.id /\ m.idh = e.idh /\ (e.op = "em" => m.item = e.item)
+       [] e.k = "call" -> m.op = e.op /\ m.n = e.n /\ m.id = e.id /\ m.idh = e.idh /\ (e.op = "em" => m.item = e.item)   \* adv: id, idh = the head after the jump
        [] e.k = "got" -> m.op = e.op /\ m.n = e.n /\ m.res = e.res /\ m.item = e.item
        [] e.k = "ret" -> /\ m.op = e.op /\ m.n = e.n
                          /\ CASE e.op \in {"al", "em"} -> m.id = e.id /\ m.idh = e.idh /\ (e.op = "em" => m.item = e.item)
